@@ -3,8 +3,11 @@
    source on every run (gen/Gen_ScalarRootFind.v), applied to the black-box oracle x |-> (f x, f' x).
    Hand-written: the prologue (clip, bracketing test, end-point roots, orientation), the `while` as a fuelled recursion, the
    epilogue (NaN unless converged) and the three ways a NaN arises, made explicit because R has no NaN:
-     NotBracketed  : x0 := nan  (no sign change, no end-point root); nan propagates through f, the loop runs max_iters times
-     ZeroOverZero  : an iterate with F = 0 and DF = 0 and not yet converged: the Newton branch is selected and computes -0/0
+     NotBracketed  : no sign change (by signs) and no end point with |f| <= r_tol: x0 := nan and the final mask
+                     converged & (rootIsBracketed | left | right) forces nan whatever f does with the nan marker
+                     (iterations / residual reported by the code then depend on f; the model reports max_iters, 0, 0)
+     ZeroOverZero  : an iterate with F = 0 and DF = 0 and not yet converged: the Newton branch is selected and computes -0/0.
+                     Since the tests are |F| <= r_tol this needs r_tol < 0 (proved impossible for 0 <= r_tol in L_C17)
      IterCap       : the loop ends by i = max_iters with converged = false, the epilogue returns nan
    Generic in Num T: T := R for theorems, T := float for execution against the implementation, T := Q for exact witnesses. *)
 From Coq Require Import ZArith QArith Bool List.
@@ -55,25 +58,27 @@ Section M.
 
   Definition clip (x lo hi : T) : T := nmin (nmax x lo) hi.     (* np.clip *)
 
-  Definition init (f df : T -> T) (x0 b0 b1 : T) : option carry :=
+  Definition init (f df : T -> T) (x0 b0 b1 r_tol : T) : option carry :=
     let fl := f b0 in
     let fh := f b1 in
     let x0c := clip x0 b0 b1 in
-    let bracketed := nltb (nmul fl fh) nzero in
-    let lsol := neqb fl nzero in
-    let rsol := neqb fh nzero in
+    let bracketed := nltb (nmul (nsign fl) (nsign fh)) nzero in     (* by signs: the product fl*fh can underflow in binary64 *)
+    let lsol := nleb (nabs fl) r_tol in
+    let rsol := nleb (nabs fh) r_tol in
+    (* final mask `converged & (rootIsBracketed | left | right)`: without any of the three the result is nan whatever f returns *)
     if andb (negb bracketed) (andb (negb lsol) (negb rsol)) then None
     else
       let x0' := if rsol then b1 else if lsol then b0 else x0c in
-      let conv0 := orb lsol rsol in
+      let F := f x0' in
+      let conv0 := orb (orb lsol rsol) (nleb (nabs F) r_tol) in     (* the (clipped) initial guess may already be a root *)
       let xl := if nltb fl nzero then b0 else b1 in
       let xh := if nltb fl nzero then b1 else b0 in
       let dx0 := nabs (nsub b1 b0) in
-      Some (x0', dx0, dx0, f x0', df x0', xl, xh, conv0, nzero).
+      Some (x0', dx0, dx0, F, df x0', xl, xh, conv0, nzero).
 
   Definition rtsafe (f df : T -> T) (x0 b0 b1 : T) (max_iters : nat) (x_tol r_tol : T) : result :=
     let mi := nZ (Z.of_nat max_iters) in
-    match init f df x0 b0 b1 with
+    match init f df x0 b0 b1 r_tol with
     | None => Res None false mi nzero nzero NotBracketed
     | Some c0 =>
       match wloop (fun x => (f x, df x)) x_tol r_tol mi max_iters c0 with
